@@ -64,9 +64,17 @@ func VerifC05_TopicCloseFlush() {
 		msgs = append(msgs, m)
 		verifrt.Assert(t.PutMessage(m) == nil, "publish-before-shutdown")
 	}
+	// a channel that is already closing (an ephemeral channel deleting itself during shutdown): its
+	// Close answers "exiting"; the topic must flush its own queue all the same
+	chanExiting := verifrt.Choice("channel-already-exiting", 2) == 1
+	if chanExiting {
+		var c *Channel
+		verifrt.Atomic(func() { c = t.GetChannel("gone#ephemeral") })
+		c.exitFlag = 1
+	}
 	err := t.Close()
 	verifrt.Join()
-	verifrt.Assert(err == nil, "topic-close-succeeds")
+	verifrt.Assert(err == nil || chanExiting, "topic-close-succeeds")
 	be := t.backend.(*verifBackend)
 	verifrt.Assert(len(be.items) == k && len(t.memoryMsgChan) == 0, "topic-queue-flushed-to-disk")
 	for i, m := range msgs {
@@ -261,3 +269,31 @@ func VerifC05_TopicCloseVsPublish() {
 // What graceful shutdown flushes must be accepted by the disk queues: a message of any legal size
 // fits the record limits of the topic's and the channel's disk queue (shared with C01).
 func VerifC05_MaxSizeMessageFitsDiskQueues() { verifrt.Atomic(verifMaxSizeOverflow) }
+
+// A metadata snapshot taken while (or after) the topics are being closed for shutdown - a late
+// Notify-triggered persist can run then - still lists every non-ephemeral topic and channel with
+// its paused flag: closing is not deleting.
+func VerifC05_MetadataDuringShutdownKeepsTopics() {
+	verifrt.Atomic(func() {
+		verifrt.StubNative("(*github.com/nsqio/nsq/nsqd.NSQD).Notify", verifNotifyNop)
+		n := verifShellNSQD(verifOpts())
+		t := n.GetTopic("a")
+		c := t.GetChannel("x")
+		if verifrt.Bool("paused") {
+			t.paused, c.paused = 1, 1
+		}
+		before := n.GetMetadata(false)
+		switch verifrt.Choice("closed", 3) {
+		case 1:
+			c.Close()
+		case 2:
+			t.Close()
+		}
+		after := n.GetMetadata(false)
+		verifrt.Assert(len(after.Topics) == 1 && len(after.Topics[0].Channels) == 1, "closing-topic-and-channel-stay-in-the-metadata")
+		if len(after.Topics) == 1 && len(before.Topics) == 1 {
+			verifrt.Assert(after.Topics[0].Name == "a" && after.Topics[0].Paused == before.Topics[0].Paused, "closing-topic-keeps-name-and-paused-flag")
+		}
+		verifrt.Reach("snapshot-after-topic-close", len(after.Topics) == 1)
+	})
+}
